@@ -17,6 +17,14 @@ ASSUMPTIONS = ['the counting file object and the fake blob client see every stor
                'file.read_range / seek+read on the handle passed to SgzReader)']
 
 
+def _clear(r):
+    """drop the loader's class-level caches between observed calls (best effort: internal API)"""
+    try:
+        r.loader.clear_cache()
+    except Exception:  # noqa
+        pass
+
+
 def cases(tier, seed):
     rng = random.Random('C07/%s' % seed)
     out = []
@@ -197,7 +205,7 @@ def run_case(case, ctx):
                                 'detail': 'preload reads %s; data section (%d,%d)' % (pre[:4], sp.data0, sp.footer0 - sp.data0)})
                 strata.add('preload')
             multisets[(backend, preload, 'open')] = sorted((x[0], x[1]) for x in log)
-            r.close() if backend == 'local' else r.loader.clear_cache()
+            r.close() if backend == 'local' else _clear(r)
             # ---- cold: fresh reader per op
             for op in ops[: max(8, len(ops) // 2)] + hdr_ops:
                 h, r = open_reader(backend, preload)
@@ -206,7 +214,7 @@ def run_case(case, ctx):
                     getattr(r, op[0])(*op[1])
                 except Exception as e:  # noqa  (value/exception correctness is C02's business)
                     counters['op_raised'] = counters.get('op_raised', 0) + 1
-                    r.loader.clear_cache()
+                    _clear(r)
                     continue
                 log = h.log[mark:]
                 counters['range_reads'] += len(log)
@@ -225,7 +233,7 @@ def run_case(case, ctx):
                                   'detail': '%s%s read %s; expected exactly %s' % (op[0], op[1], got_extra[:6], sorted(extra)[:6])})
                 bad += b
                 multisets.setdefault((backend, preload, 'cold'), []).append(sorted((x[0], x[1]) for x in log))
-                r.loader.clear_cache()
+                _clear(r)
                 if backend == 'local':
                     h.close()
             # ---- warm: one reader, the op list twice
@@ -251,7 +259,7 @@ def run_case(case, ctx):
                 counters['chunk_cache_hits'] = counters.get('chunk_cache_hits', 0) + r._read_containing_chunk_cached.cache_info().hits
             except Exception:  # noqa
                 pass
-            r.loader.clear_cache()
+            _clear(r)
             if backend == 'local':
                 h.close()
             strata.add('backend:' + backend)
